@@ -172,210 +172,48 @@ end MoreExec.WakeProto
 
 namespace MoreExec.Retry
 
-/-- runs in which no `cancel()` is called on the retry futures themselves (their delegates may still be cancelled by
-someone else: `ddone d true`) -/
-def NoClientCancel : Act → Prop
-  | .cancelScan _ => False
-  | _ => True
-
-/-- every future handed out is terminal or still has its job -/
-def Held (s : St) : Prop :=
-  s.cancelling = [] ∧ ∀ f ∈ s.submitted, f ∈ s.done ∨ (∃ j ∈ s.jobs, j.fut = f) ∨ (∃ nj, s.submitting = some nj ∧ nj.fut = f)
-
-theorem held_init : Held init := by simp [Held, init]
-
-theorem mem_erase_ne {l : List Job} {j x : Job} (hx : x ∈ l) (hne : x ≠ j) : x ∈ l.erase j := (List.mem_erase_of_ne hne).mpr hx
-
-theorem held_step (s : St) (a : Act) (s' : St) (hg : NoClientCancel a) (hi : Held s) (h : step s a = some s') : Held s' := by
-  obtain ⟨hc, hh⟩ := hi
-  have nohold : ∀ f, cancellingF s f = false := by intro f; simp [cancellingF, hc]
-  cases a with
-  | cancelScan f => exact absurd hg (by simp [NoClientCancel])
-  | submit f =>
-    simp only [step] at h
-    split at h
-    · cases h
-    · cases h
-      refine ⟨hc, ?_⟩
-      intro g hg2; simp only [List.mem_append, List.mem_singleton] at hg2
-      cases hg2 with
-      | inl hg2 =>
-        rcases hh g hg2 with hd | ⟨j, hj, hjf⟩ | hw
-        · exact Or.inl hd
-        · exact Or.inr (Or.inl ⟨j, List.mem_append_left _ hj, hjf⟩)
-        · exact Or.inr (Or.inr hw)
-      | inr hg2 => subst hg2; exact Or.inr (Or.inl ⟨_, List.mem_append_right _ (List.mem_singleton.mpr rfl), rfl⟩)
-  | submitNow j =>
-    simp only [step] at h
-    split at h
-    · rename_i hgd
-      obtain ⟨_, _, _, _, _, hnone⟩ := hgd
-      split at h
-      · rename_i hd; cases h
-        refine ⟨hc, ?_⟩
-        intro g hg2
-        rcases hh g hg2 with h | ⟨x, hx, hxf⟩ | hw
-        · exact Or.inl h
-        · by_cases e : x = j
-          · subst e; subst hxf; exact Or.inl hd
-          · exact Or.inr (Or.inl ⟨x, mem_erase_ne hx e, hxf⟩)
-        · exact Or.inr (Or.inr hw)
-      · cases h
-        refine ⟨hc, ?_⟩
-        intro g hg2
-        rcases hh g hg2 with h | ⟨x, hx, hxf⟩ | ⟨nj, hnj, _⟩
-        · exact Or.inl h
-        · by_cases e : x = j
-          · subst e; exact Or.inr (Or.inr ⟨_, rfl, hxf⟩)
-          · exact Or.inr (Or.inl ⟨x, mem_erase_ne hx e, hxf⟩)
-        · rw [hnone] at hnj; cases hnj
-    · cases h
-  | submitApp =>
-    simp only [step] at h
-    split at h
-    · rename_i nj hnj
-      cases h
-      refine ⟨hc, ?_⟩
-      intro g hg2
-      rcases hh g hg2 with h | ⟨x, hx, hxf⟩ | ⟨nj', hnj', hf'⟩
-      · exact Or.inl h
-      · exact Or.inr (Or.inl ⟨x, List.mem_append_left _ hx, hxf⟩)
-      · rw [hnj] at hnj'; cases hnj'
-        exact Or.inr (Or.inl ⟨nj, List.mem_append_right _ (List.mem_singleton.mpr rfl), hf'⟩)
-    · cases h
-  | discard j =>
-    simp only [step] at h
-    split at h
-    · cases h
-      refine ⟨hc, ?_⟩
-      intro g hg2
-      rcases hh g hg2 with h | ⟨x, hx, hxf⟩ | hw
-      · exact Or.inl (by simp only; split <;> simp [h])
-      · by_cases e : x = j
-        · subst e; subst hxf; exact Or.inl (by simp only; split <;> simp_all)
-        · exact Or.inr (Or.inl ⟨x, mem_erase_ne hx e, hxf⟩)
-      · exact Or.inr (Or.inr hw)
-    · cases h
-  | ddone d c =>
-    simp only [step] at h
-    split at h
-    · cases h; exact ⟨hc, hh⟩
-    · cases h
-  | cbCancelled d =>
-    simp only [step] at h
-    split at h
-    · rename_i j hjd
-      split at h
-      · cases h
-        refine ⟨hc, ?_⟩
-        intro g hg2
-        rcases hh g hg2 with h | ⟨x, hx, hxf⟩ | hw
-        · exact Or.inl (by simp only [nohold, Bool.false_or]; split <;> simp [h])
-        · by_cases e : x = j
-          · subst e; subst hxf; exact Or.inl (by simp only [nohold, Bool.false_or]; split <;> simp_all)
-          · exact Or.inr (Or.inl ⟨x, mem_erase_ne hx e, hxf⟩)
-        · exact Or.inr (Or.inr hw)
-      · cases h
-    · cases h
-  | cbPolicy d r =>
-    simp only [step] at h
-    split at h
-    · split at h
-      · split at h
-        · split at h <;> cases h; exact ⟨hc, hh⟩
-        · cases h; exact ⟨hc, hh⟩
-      · cases h
-    · cases h
-  | cbRetry d =>
-    simp only [step] at h
-    split at h
-    · rename_i j t hjd _
-      cases h
-      refine ⟨hc, ?_⟩
-      intro g hg2
-      rcases hh g hg2 with h | ⟨x, hx, hxf⟩ | hw
-      · exact Or.inl h
-      · by_cases e : x = j
-        · subst e; exact Or.inr (Or.inl ⟨_, List.mem_append_right _ (List.mem_singleton.mpr rfl), hxf⟩)
-        · exact Or.inr (Or.inl ⟨x, List.mem_append_left _ (mem_erase_ne hx e), hxf⟩)
-      · exact Or.inr (Or.inr hw)
-    · cases h
-  | cbFinal d =>
-    simp only [step] at h
-    split at h
-    · rename_i j hjd _
-      cases h
-      refine ⟨hc, ?_⟩
-      intro g hg2
-      rcases hh g hg2 with h | ⟨x, hx, hxf⟩ | hw
-      · exact Or.inl (by simp only; split <;> simp [h])
-      · by_cases e : x = j
-        · subst e; subst hxf; exact Or.inl (by simp only; split <;> simp_all)
-        · exact Or.inr (Or.inl ⟨x, mem_erase_ne hx e, hxf⟩)
-      · exact Or.inr (Or.inr hw)
-    · cases h
-  | cancelDel f b =>
-    simp only [step, hc, List.lookup_nil] at h
-    cases h
-  | cancelEnd f =>
-    simp only [step, hc, List.lookup_nil] at h
-    cases h
-  | tick t =>
-    simp only [step] at h
-    split at h
-    · cases h; exact ⟨hc, hh⟩
-    · cases h
-
-/-- (retry: no future silently dropped — partial: runs without a concurrent `cancel()` on the retry futures themselves)
-Every future handed out by `submit()` is terminal, or still has its job in the job list, or is the future whose job the
-submit thread is handing to the delegate right now (between the two sections of `_submit_now`), through any interleaving of
-submissions, attempts, policy answers, back-off and delegates cancelled BY SOMEONE ELSE (`ddone d true` followed by the
-callback `cbCancelled d`, which makes the future terminal).  With client cancels in play the same statement is checked
-on real executions by the replay and the lost-future monitor (the full invariant needs the link between a vetoed
-cancel and its delegate; see DESIGN.md). -/
-theorem C03_retry_no_lost_future_partial (as : List Act) (hg : ∀ a ∈ as, NoClientCancel a) (s : St) (hrun : run init as = some s) :
-    ∀ f ∈ s.submitted, f ∈ s.done ∨ (∃ j ∈ s.jobs, j.fut = f) ∨ (∃ nj, s.submitting = some nj ∧ nj.fut = f) :=
-  (invariant_run_guarded step NoClientCancel Held (fun m a m' hga hi hst => held_step m a m' hga hi hst) init held_init as hg s hrun).2
-
-/-- (retry: no future is lost — with client cancels) For EVERY run of the Retry model — any number of submissions, attempts,
-policy answers, back-offs, `cancel()` calls from any number of threads landing at any point (queued, between retries, inside the
-hand-over window, attempt running, being resolved), delegates cancelled by someone else — every future handed out by `submit()` is,
-in the final state, terminal, or has its job in the job list, or is the future the submit thread is handing over right now, or
-is the subject of a `cancel()` call in progress that will end by making it terminal (it popped the queued job, or its
-`delegate.cancel()` returned True, or the delegate has been cancelled meanwhile) — provided the delegate contract DC3 held on that
-run: no delegate future whose `cancel()` returned False to the library was cancelled afterwards (`Disj`: decidable on the run,
-true of every stdlib / SimPool future, whose cancel() returns False only once running or finished). -/
-theorem C03_retry_no_lost_future (as : List Act) (s : St) (hrun : run init as = some s) (hdc : Disj s) :
+/-- (retry: no future is lost) For EVERY run of the Retry model — any number of submissions, attempts, policy answers,
+back-offs, `cancel()` calls from any number of threads landing at any point (queued, between retries, inside the hand-over window,
+attempt running, being resolved), delegates cancelled by someone else at any moment (also while a `cancel()` of the retry future is
+in progress) — every future handed out by `submit()` is, in the final state: terminal; or has its job in the job list; or is the
+future the submit thread is handing over right now; or is the subject of a `cancel()` in progress that will end by making it
+terminal (it popped the queued job, or its `delegate.cancel()` returned True, or the delegate has been cancelled meanwhile); or is
+owed a `_me_delegate_cancelled()` call by the callback of its cancelled delegate (which makes it terminal as soon as that thread
+gets the future's lock).  Nothing is ever silently dropped. -/
+theorem C03_retry_no_lost_future (as : List Act) (s : St) (hrun : run init as = some s) :
     ∀ f ∈ s.submitted, Kept s f :=
-  (invariant_run step LInv linv_step init linv_init as s hrun).kept hdc
+  (invariant_run step LInv linv_step init linv_init as s hrun).kept
 
-/-- at quiescence of the cancels and of the hand-over (no `cancel()` in progress, submit thread outside `_submit_now`) every
-handed-out future is terminal or still has its job: nothing has been dropped -/
-theorem C03_retry_no_lost_future_quiescent (as : List Act) (s : St) (hrun : run init as = some s) (hdc : Disj s)
-    (hc : s.cancelling = []) (hw : s.submitting = none) : ∀ f ∈ s.submitted, f ∈ s.done ∨ ∃ j ∈ s.jobs, j.fut = f := by
+/-- at quiescence of the cancels, of the hand-over and of the delegate callbacks (no `cancel()` in progress, submit thread outside
+`_submit_now`, no `_me_delegate_cancelled()` owed) every handed-out future is terminal or still has its job -/
+theorem C03_retry_no_lost_future_quiescent (as : List Act) (s : St) (hrun : run init as = some s)
+    (hc : s.cancelling = []) (hw : s.submitting = none) (hm : s.marks = []) :
+    ∀ f ∈ s.submitted, f ∈ s.done ∨ ∃ j ∈ s.jobs, j.fut = f := by
   intro f hf
-  rcases C03_retry_no_lost_future as s hrun hdc f hf with h | h | ⟨nj, hnj, _⟩ | ⟨b, hb⟩ | h | ⟨d, b, hb, _⟩
+  rcases C03_retry_no_lost_future as s hrun f hf with h | h | ⟨nj, hnj, _⟩ | ⟨b, hb⟩ | h | ⟨d, b, hb, _⟩ | ⟨d, hd⟩
   · exact Or.inl h
   · exact Or.inr h
   · rw [hw] at hnj; cases hnj
   · rw [hc] at hb; cases hb
   · rw [hc] at h; cases h
   · rw [hc] at hb; cases hb
+  · rw [hm] at hd; cases hd
 
-/-- without the contract the statement is FALSE of the model (and of the code): a delegate whose cancel() first fails and which is
-then cancelled by someone else while the client's `cancel()` is still inside `_cancel` leaves the future pending with no job
-(`_me_delegate_cancelled` defers to the cancel in progress, which then reports False).  Witness run: -/
-def lostRun : List Act :=
-  [.submit 0, .submitNow ⟨0, 0, 0, none, false, none⟩, .submitApp, .cancelScan 0, .cancelDel 0 false, .ddone 0 true, .cbCancelled 0, .cancelEnd 0]
-theorem C03_retry_lost_without_contract :
-    ((run init lostRun).map (fun s => (s.done, s.jobs.length, s.cancelling.length, s.submitting.isSome, decide (0 ∈ s.submitted))))
-      = some ([], 0, 0, false, true) := by decide
+/-- every owed `_me_delegate_cancelled()` can be paid as soon as nobody holds the future's lock, and paying it makes the future
+terminal: a pending mark is not a way of staying pending for ever -/
+theorem C03_mark_pays (s : St) (f d : Nat) (hm : (f, d) ∈ s.marks) (hf : holdsF s f = false) :
+    ∃ s', step s (.cbMark f d false) = some s' ∧ f ∈ s'.done := by
+  refine ⟨_, by simp only [step, hm, hf, ↓reduceIte]; rfl, ?_⟩
+  simp only; split <;> simp_all
 
-/-! Non-vacuity of the contract hypothesis: a run with a refused cancel (attempt running) that is later finalised normally -/
-def refusedRun : List Act :=
-  [.submit 0, .submitNow ⟨0, 0, 0, none, false, none⟩, .submitApp, .cancelScan 0, .cancelDel 0 false, .cancelEnd 0,
-   .ddone 0 false, .cbPolicy 0 none, .cbFinal 0]
-example : ((run init refusedRun).map (fun s => (s.refused, s.delCancelled, s.done))) = some ([0], [], [0]) := by decide
+/-! Non-vacuity / the delicate interleaving: the client's cancel() finds the attempt running (`delegate.cancel()` = False); before
+it has left `_cancel`, somebody else cancels the delegate and the delegate's callback pops the job; the callback's
+`_me_delegate_cancelled()` cannot run while the cancel is in progress (it needs the future's lock) and, once it does, cancels. -/
+def raceRun : List Act :=
+  [.submit 0, .submitNow ⟨0, 0, 0, none, false, none⟩, .submitApp, .cancelScan 0, .cancelDel 0 false, .ddone 0 true, .cbCancelled 0]
+example : ((run init raceRun).map (fun s => (s.done, s.jobs.length, s.marks, s.cancelling.length))) = some ([], 0, [(0, 0)], 1) := by decide
+example : (run init (raceRun ++ [.cbMark 0 0 false])).isSome = false := by decide          -- must wait for the lock
+example : ((run init (raceRun ++ [.cancelEnd 0, .cbMark 0 0 false])).map (fun s => (s.done, s.marks))) = some ([0], []) := by decide
 
 end MoreExec.Retry
 
